@@ -7,6 +7,7 @@ package main
 import (
 	"bufio"
 	"bytes"
+	"encoding/binary"
 	"fmt"
 	"io"
 	"os"
@@ -191,6 +192,32 @@ func TestVerifC16Split(t *testing.T) {
 				have[len(s.Cid.Bytes())+len(s.Data)] = true
 			}
 			t.Logf("section bodies at varint boundaries present: 127=%v 128=%v 16383=%v 16384=%v", have[127], have[128], have[16383], have[16384])
+		}
+		if ci == 1 || ci%3 == 2 {
+			// a CAR written by another tool: the same header in another, equally valid CBOR encoding (map entries in the other
+			// order, the version as a two-byte integer); "the original header" is these bytes, whatever a re-encoding would give
+			raw, _ := os.ReadFile(carPath)
+			hl, n := uvarintC16(raw)
+			oldHdr := raw[n : n+int(hl)]
+			if i := bytes.Index(oldHdr, []byte{0xd8, 0x2a}); i >= 0 && len(oldHdr) >= i+41 {
+				link := oldHdr[i : i+41] // tag 42, 37-byte byte string
+				hdr := append([]byte{0xa2, 0x67}, []byte("version")...)
+				hdr = append(hdr, 0x18, 0x01, 0x65)
+				hdr = append(hdr, []byte("roots")...)
+				hdr = append(hdr, 0x81)
+				hdr = append(hdr, link...)
+				nf := binary.AppendUvarint(nil, uint64(len(hdr)))
+				nf = append(nf, hdr...)
+				delta := int64(len(nf)) - int64(n) - int64(hl)
+				nf = append(nf, raw[n+int(hl):]...)
+				if err := os.WriteFile(carPath, nf, 0o644); err != nil {
+					t.Fatal(err)
+				}
+				built.HeaderSize = uint64(int64(built.HeaderSize) + delta)
+				for k := range built.Sections {
+					built.Sections[k].Offset = uint64(int64(built.Sections[k].Offset) + delta)
+				}
+			}
 		}
 		orig, _ := os.ReadFile(carPath)
 		ids := map[string]int{}
